@@ -55,7 +55,7 @@ func runStackProperty(t *testing.T, prop, test string, gen func(*rapid.T) SProgr
 		runOne(rp, t.Fatalf)
 		return
 	}
-	if shardNo() == 0 {
+	if firstShard() {
 		for _, rf := range regressFiles(test) {
 			var c SProgram
 			if err := loadCaseFile(rf, &c); err != nil {
